@@ -19,7 +19,7 @@ def cnt(g, q, **kw):
 for i, it in enumerate(payload["items"]):
     rec = {}
     try:
-        g = Glycan(it["iupac"])
+        g = Glycan(it["iupac"], **it.get("kw", {}))
         rec["smiles"] = g.get_smiles()
         t = g.get_tree()
         rec["nodes"] = [[int(n), t.nodes[n]["type"].get_name(full=True)] for n in t.nodes]
